@@ -244,7 +244,7 @@ def finish(ctx, wall, write=True):
 
 # ------------------------------------------------------------------------------------------
 def std_e2(ctx, module, consts, tag, pspec, wname, tspec=None, tconsts=None, pairs=0, pair_op=None, reps=1, max_alt=50,
-           label=None, sample=None, pconsts=None, gen_workers=1, constraint=None):
+           label=None, sample=None, pconsts=None, gen_workers=1, constraint=None, cfg_extra=None):
     """Generic E2: generate every transition of `module` with TLC, replay in the code, judge, M-validate pairs."""
     w = ctx.sub(wname)
     gen, st = vlib.generate(module, consts, w, "gen.out", workers=gen_workers, constraint=constraint)
@@ -252,6 +252,8 @@ def std_e2(ctx, module, consts, tag, pspec, wname, tspec=None, tconsts=None, pai
     args = ["replay", tag, "--gen", gen, "--out", pf, "--hist", h, "--reps", str(reps), "--max-alt", str(max_alt), "--seed", str(ctx.seed)]
     if pairs and pair_op:
         args += ["--mout", mm, "--pairs", str(pairs), "--pair-op", pair_op]
+    if cfg_extra:
+        args += ["--cfg-extra", json.dumps(cfg_extra)]
     stats = vlib.vh(args, w)
     os.remove(gen)
     if stats.get("missing") and not stats.get("panics"):
@@ -813,6 +815,12 @@ def run_lossy(ctx):
         c = {"Width": w, "NE": ne, "NMax": nmax, "D": 12, "EMIT": "TRUE"}
         std_e2(ctx, "MC_Lossy", c, "lc", "P_Lossy", "lc_%d_%d" % (w, ne), reps=1, max_alt=400, sample='"prunes"',
                label={"structure": "LossyCounter", "width": w, "symbols": ne, "max_stream": nmax})
+        # the same state graph on a counter built by with_epsilon(eps) with ceil(1/eps) = w but 1/eps not an integer
+        eps = {2: (3, 5), 3: (2, 5), 4: (3, 10), 5: (2, 9)}.get(w)
+        if eps:
+            std_e2(ctx, "MC_Lossy", c, "lc", "P_Lossy", "lc_%d_%d_eps" % (w, ne), reps=1, max_alt=400, sample='"prunes"',
+                   cfg_extra={"eps_num": eps[0], "eps_den": eps[1]},
+                   label={"structure": "LossyCounter", "width": w, "epsilon": "%d/%d" % eps, "symbols": ne, "max_stream": nmax})
     # E3 with M-level trace validation (code -> spec) of every recorded call, grouped by window width
     def lc_width(c):
         if c.get("ne", 999) > 80:
